@@ -100,7 +100,7 @@ def gen_op(rng, s) -> Dict[str, Any]:
         rows = []
         for _ in range(rng.randint(1, 12)):
             rows.append({"r": rng.randrange(n_rules), "kind": rng.choice(["ok", "ok", "drop", "dup"]), "k": rng.randrange(8)})
-        return {"op": "balance", "s": s(), "rows": rows, "n_jobs": rng.choice([1, 2, 4, 8]),
+        return {"op": "balance", "s": s(), "rows": rows, "n_jobs": rng.choice([1, 2, 4, 8, -1, 3]),
                 "as_dict": rng.random() < 0.5}
     return {"op": "crn", "s": s(), "setup": rng.randrange(len(CRN_SETUPS)), "repeats": rng.choice([1, 2]),
             "workers": rng.choice([None, 2, 3, 8]), "mode": rng.choice(["explicit", "plain"]),
@@ -293,7 +293,7 @@ def _balance(op: Dict[str, Any], sim: Sim, world, pristine) -> None:
         world._bal = {}
     checker = world._bal.setdefault(op["n_jobs"], BalanceReactionCheck(n_jobs=op["n_jobs"]))
     bal, unbal = checker.dicts_balance_check(arg, "reactions")
-    if op["n_jobs"] > 1:
+    if op["n_jobs"] != 1:
         sim.probe("balance_parallel")
     with pristine:
         want = [_serial_balance(r) for r in rs]
@@ -303,11 +303,11 @@ def _balance(op: Dict[str, Any], sim: Sim, world, pristine) -> None:
         got_r = [d.get("reactions") for d in got]
         if got_r != [r for _, r in w] or any(d.get("balanced") is not flag for d in got):
             raise Violation(PROP, "BalanceReactionCheck.dicts_balance_check", "parallel_differs_from_serial",
-                            "n_jobs>1" if op["n_jobs"] > 1 else "n_jobs=1",
+                            "n_jobs>1" if op["n_jobs"] != 1 else "n_jobs=1",
                             {"list": name, "got": got_r, "serial": [r for _, r in w]})
         if op["as_dict"] and [d.get("tag") for d in got] != [i for i, _ in w]:
             raise Violation(PROP, "BalanceReactionCheck.dicts_balance_check", "rows_shifted", "", {"list": name, "tags": [d.get("tag") for d in got]})
-    sim.state(("balance", min(op["n_jobs"], 3), len(w_bal) > 0, len(w_unb) > 0))
+    sim.state(("balance", min(abs(op["n_jobs"]), 3), len(w_bal) > 0, len(w_unb) > 0))
     sim.event("balance", {"n": len(rs), "bal": len(w_bal), "jobs": op["n_jobs"]})
 
 
